@@ -21,6 +21,30 @@ from sa.analysis import Analysis          # noqa: E402
 from sa.report import Checker, load_known, match_known, write_json, norm_text  # noqa: E402
 
 
+def tree_digest(root: str = None) -> str:
+    """sha256 over the package's python sources (path + normalised line endings), to tell the reviewed tree from an edited one."""
+    import hashlib
+    h = hashlib.sha256()
+    base = os.path.join(root or REPO, "tradingenv")
+    for dp, dn, fns in os.walk(base):
+        dn[:] = sorted(d for d in dn if d != "__pycache__")
+        for fn in sorted(fns):
+            if fn.endswith(".py"):
+                p = os.path.join(dp, fn)
+                h.update(os.path.relpath(p, base).encode())
+                with open(p, "rb") as f:
+                    h.update(f.read().replace(b"\r\n", b"\n"))
+    return h.hexdigest()
+
+
+def tree_is_reviewed() -> bool:
+    try:
+        with open(os.path.join(VERIF, "sa", "reviewed_tree.sha256")) as f:
+            return f.read().strip() == tree_digest()
+    except OSError:
+        return False
+
+
 def run_property(prop: str, root: str = None, tier: str = "quick"):
     """Returns (checker, module). Raises AnalysisError."""
     an = Analysis(root)
@@ -76,7 +100,10 @@ def main(argv=None):
         selfval = None
         sweep = None
         equiv = None
-        if args.tier == "thorough" and args.root is None:
+        reviewed = tree_is_reviewed()
+        if args.tier == "thorough" and args.root is None and viol:
+            print(f"[{prop}] the property's own check reports violations on this tree: checker self-validation (seeded changes, refactors, rewrite sweeps) is skipped - it is only meaningful on a tree the check passes")
+        if args.tier == "thorough" and args.root is None and not viol:
             from sa.selfval import self_validate
             selfval = self_validate(prop, seed)
             if not os.environ.get("VERIF_NO_EQUIV"):
@@ -123,14 +150,19 @@ def main(argv=None):
             print(f"[{prop}] equivalence sweep: {equiv['silent']}/{equiv['generated']} behaviour-preserving rewrites of the {len(equiv['functions'])} consulted functions analysed silently")
         for l in out_lines:
             print(l)
+        # Checker self-validation failing is the CHECKER's problem, not a verdict on the tree. On the reviewed tree (the one the
+        # variants were written against) it fails the run (exit 2); on any other tree the variants may no longer apply cleanly or
+        # may interact with the edit, so the outcome is recorded (stdout, evidence) and the verdict is the property check's alone.
         if equiv is not None and equiv["false_alarms"]:
             for d, k, w in equiv["false_alarms"][:20]:
-                print(f"ANALYSIS-ERROR checker-self-validation: behaviour-preserving rewrite `{d}` is reported ({k}): {w[:200]}")
-            return 2
+                print(("ANALYSIS-ERROR" if reviewed else "NOTE") + f" checker-self-validation: behaviour-preserving rewrite `{d}` is reported ({k}): {w[:200]}")
+            if reviewed:
+                return 2
         if selfval is not None and not selfval["ok"]:
             for p in selfval["problems"]:
-                print("ANALYSIS-ERROR checker-self-validation:", p)
-            return 2
+                print(("ANALYSIS-ERROR" if reviewed else "NOTE") + " checker-self-validation:", p)
+            if reviewed:
+                return 2
         return 1 if viol else 0
     except AnalysisError as e:
         print(f"ANALYSIS-ERROR property={prop}: {e}")
